@@ -417,6 +417,12 @@ func (e *Exec) ghostPrimitive(st *State, fr *Frame, fn *ssa.Function, args []Val
 			ts[k] = e.ghGet(s, fmt.Sprintf("line.arg%d%s", i.Val, c.suffix), c.sort, IntConst(0))
 		}
 		return one(st, unflatten(fn.Signature.Results().At(0).Type(), &ts)), true
+	case "ghost_calls": // how often the function under verification has called the named callee so far
+		name := args[0].(*StrV)
+		if name.Const == nil {
+			panic(unsupported("ghost_calls needs a constant callee name"))
+		}
+		return one(st, e.ghGet(s, "calls."+*name.Const, BV(64), IntConst(0))), true
 	case "ghost_lastcid":
 		return one(st, e.ghGet(s, "lastatomic", BV(64), IntConst(0))), true
 	case "ghost_ioerr":
@@ -457,6 +463,20 @@ func (e *Exec) rootOf(st *State, v *IfaceV) *IfaceV {
 func (e *Exec) invokeModel(st *State, fr *Frame, cc *ssa.CallCommon, recv *IfaceV, args []Value, pos token.Pos) ([]Outcome, bool) {
 	it := cc.Value.Type().String()
 	switch {
+	case it == "reflect.Type":
+		// run-time type descriptors: every query is pure; what it answers is left unspecified
+		e.note("trusted: methods of reflect.Type are pure and return unspecified values")
+		sig := cc.Method.Type().(*types.Signature)
+		var rs []Value
+		for i := 0; i < sig.Results().Len(); i++ {
+			v := freshValue("reflect."+cc.Method.Name(), sig.Results().At(i).Type())
+			e.assumeValid(st, sig.Results().At(i).Type(), v)
+			if iv, ok := v.(*IfaceV); ok {
+				st.Assume(Not(Eq(iv.Tid, IntConst(0))))
+			}
+			rs = append(rs, v)
+		}
+		return one(st, rs...), true
 	case cc.Method.Name() == "Read" && (it == "io.Reader" || it == "io.ReadWriter" || it == "io.ReadCloser"):
 		// io.Reader contract: a read delivers between 1 and len(p) of the remaining bytes (short reads are allowed),
 		// or fails with the terminal error when nothing is left
@@ -587,6 +607,29 @@ func init() {
 	models["(*log.Logger).Println"] = emit
 	models["(*log.Logger).Printf"] = emit
 	models["(*log.Logger).Print"] = emit
+	// reflection (rtmp.ExpectPacket): descriptors and values are opaque; Set stores into the caller's target only
+	nonNilIface := func(name string) model {
+		return func(e *Exec, st *State, fr *Frame, fn *ssa.Function, args []Value, pos token.Pos) []Outcome {
+			outs := pureOpaque(name)(e, st, fr, fn, args, pos)
+			for _, o := range outs {
+				for _, r := range o.results {
+					if iv, ok := r.(*IfaceV); ok {
+						o.st.Assume(Not(Eq(iv.Tid, IntConst(0))))
+					}
+				}
+			}
+			return outs
+		}
+	}
+	models["reflect.TypeOf"] = nonNilIface("reflect.TypeOf")
+	models["reflect.ValueOf"] = pureOpaque("reflect.ValueOf")
+	models["reflect.New"] = pureOpaque("reflect.New")
+	models["(reflect.Value).Elem"] = pureOpaque("reflect.Value.Elem")
+	models["(reflect.Value).Interface"] = pureOpaque("reflect.Value.Interface")
+	models["(reflect.Value).Set"] = func(e *Exec, st *State, fr *Frame, fn *ssa.Function, args []Value, pos token.Pos) []Outcome {
+		e.note("ASSUMED: reflect.Value.Set stores only into the variable the caller passed a pointer to (not tracked)")
+		return one(st)
+	}
 	models["fmt.Fprintf"] = pureOpaque("fmt.Fprintf")
 	models["fmt.Fprintln"] = pureOpaque("fmt.Fprintln")
 	models["fmt.Fprint"] = pureOpaque("fmt.Fprint")
